@@ -193,8 +193,9 @@ def gen_multi(rng, k):
     if rng.random() < 0.5 and neq >= 2:
         pattern[0], pattern[-1] = True, False          # a multiplier first, none later
     for um in pattern:
-        N = rng.choice([1, 1, 2, 3])
-        eq = {'n': N, 'use_mult': um, 'normalize': rng.random() < 0.6,
+        shape = rng.choice([[1], [2], [3], [2, 3], [3, 2], [2, 2], [2, 1, 2]])     # N-D shapes, mixed |rhs| per row
+        N = prod(shape)
+        eq = {'n': N, 'shape': shape, 'use_mult': um, 'normalize': rng.random() < 0.6,
               'mult_val': jq(rng.choice([Fraction(2), Fraction(-3), Fraction(1, 2), Fraction(5, 4)])),
               'rhs_val': jq(rng.choice(RHS_POOL))}
         lhs = [dy(rng) for _ in range(N)]
